@@ -45,10 +45,59 @@ def build(tier="quick", seed=0):
     strain_stress(b)
     heating(b)
     displacements(b)
+    b.replayer("*", _replay_c15)
     b.assume("the generic-point loop rule: the four nested loops have no loop-carried state (checked: every array write is at the generic index and every read uses only the generic index of its own axes)")
     b.assume("colatitude in (0, pi), != pi/2 for the symbolic cot = cos/sin (floating-point tan(pi/2) is finite); sin, cos of the colatitude are atoms with s^2 + c^2 = 1")
     b.assume("the tractions clause uses the statement's hypothesis that the six potential inputs satisfy the degree-l surface Laplace identity")
     return b
+
+
+def _strain_stress_path(b, fn, ex, path_, sfx, args, pre, y, U, Ut, Up, Utt, Upp, mu, lam, l):
+    strains, stresses = path_.value
+    idx = getattr(ex, "loop_indices", [])
+    names = {str(i): i for i in idx}
+    ri, ci, li, ti = names.get("ri_idx"), names.get("ci_idx"), names.get("li_idx"), names.get("ti_idx")
+    ok_loops = None not in (ri, ci, li, ti)
+    ground(b, f"{fn.key}::loops{sfx}", fn.key, "four nested loops over (radius, colatitude, longitude, time)", ok_loops, detail=str(idx))
+    if not ok_loops:
+        return None, None, None
+    point = lambda k: (sp.Integer(k), ri, li, ci, ti)
+    # frame: all writes at the generic point, exactly components 0..5 of both outputs
+    for arr, nm in ((strains, "strains"), (stresses, "stresses")):
+        widx = [w[0] for w in arr.writes]
+        ok = sorted(widx, key=str) == sorted([point(k) for k in range(6)], key=str)
+        ground(b, f"{fn.key}::frame:{nm}{sfx}", fn.key, f"frame: {nm} is written exactly at [0..5, ri, li, ci, ti] of the generic iteration (no other element)", ok, detail=str(widx)[:300])
+    ok_reads = True
+    det = []
+    for an, arr in args.items():
+        if isinstance(arr, CArr):
+            for rd in arr.reads:
+                want = {"pot": (li, ci, ti), "y": None, "lon": (li,), "col": (ci,), "time": (ti,), "rad": (ri,), "mu": (ri,), "K": (ri,)}[arr.name]
+                if arr.name == "y":
+                    good = len(rd) == 2 and rd[1] == ri
+                else:
+                    good = tuple(rd) == want
+                if not good:
+                    ok_reads = False
+                    det.append((an, str(rd)))
+    ground(b, f"{fn.key}::frame:reads{sfx}", fn.key, "frame: every input is read only at the generic index of its own axes (element-wise, no stencil)", ok_reads, detail=str(det)[:300])
+    eps = [strains.get(point(k)) for k in range(6)]
+    sig = [stresses.get(point(k)) for k in range(6)]
+    hyps = list(pre) + path_.hyps
+    tr = eps[0] + eps[1] + eps[2]
+    for k in range(6):
+        spec = Cx(2) * mu * eps[k] + (lam * tr if k < 3 else Cx(0))
+        b.add(Obligation(oid=f"{fn.key}::ensures:hooke[{k}]{sfx}", fn=fn.key, clause=f"sigma_{k} == 2 mu eps_{k}" + (" + lambda tr(eps), lambda = K - 2 mu/3" if k < 3 else ""),
+                         goal=sp.And(sp.Eq(sig[k].re, spec.re), sp.Eq(sig[k].im, spec.im)), hyps=hyps, backends=("qqnf", "z3")))
+    # tractions, with the degree-l Laplace identity as hypothesis:  U_tt = -l(l+1) U - cot U_t - U_pp / sin^2
+    ll = l * (l + 1)
+    lap_re = (Utt.re, 1, (-ll * U.re - cT / sT * Ut.re - Upp.re / sT ** 2))
+    lap_im = (Utt.im, 1, (-ll * U.im - cT / sT * Ut.im - Upp.im / sT ** 2))
+    rels = [lap_re, lap_im, (sT, 2, 1 - cT ** 2)]
+    for k, (spec, nm) in {0: (y[1] * U, "sigma_rr == y2 U"), 3: (y[3] * Ut, "sigma_rtheta == y4 dU/dtheta"), 4: (y[3] * Up / Cx(sT), "sigma_rphi == y4 dU/dphi / sin(theta)")}.items():
+        b.add(Obligation(oid=f"{fn.key}::ensures:traction[{k}]{sfx}", fn=fn.key, clause=nm + " (degree-l Laplace identity assumed for the potential)",
+                         goal=sp.And(sp.Eq(sig[k].re, spec.re), sp.Eq(sig[k].im, spec.im)), hyps=hyps, rels=rels, backends=("qqnf",)))
+    return eps, mu, lam
 
 
 def strain_stress(b):
@@ -63,7 +112,7 @@ def strain_stress(b):
                 tidal_solution_y=CArr("y", lambda idx: y[int(idx[0])], (6, nr)), longitude_array=CArr("lon", R("longitude"), (nlon,)),
                 colatitude_array=CArr("col", R("colatitude"), (ncol,)), time_array=CArr("time", R("time"), (nt,)), radius_array=CArr("rad", r, (nr,)),
                 shear_moduli=CArr("mu", mu, (nr,)), bulk_moduli=CArr("K", K, (nr,)), frequency=R("frequency"), order_l=l)
-    npx = Namespace("np", {"sin": lambda ex, node, x: sT, "tan": lambda ex, node, x: sT / cT, "empty": _sh_empty, "complex128": "complex128"})
+    npx = Namespace("np", {"sin": lambda ex, node, x: sT, "tan": lambda ex, node, x: sT / cT, "empty": _sh_empty, "complex128": "complex128", "real": _sh_real, "imag": _sh_imag, "abs": _sh_abs})
     lam = K - Cx(sp.Rational(2, 3)) * mu
     pre = [sp.Gt(r, 0), sp.Gt(sT, 0), sp.Ne(cT, 0), sp.Eq(sT ** 2 + cT ** 2, 1), sp.Ge(l, 2), sp.Gt(mu.abs2(), 0), sp.Gt((lam + Cx(2) * mu).abs2(), 0)]
     fn = Fn(FS, "calculate_strain_stress")
@@ -75,53 +124,16 @@ def strain_stress(b):
         b.subset_exits.append(f"{fn.key}: {e}")
         return
     b.absorb_exec(ex)
-    if len(paths) != 1 or paths[0].outcome != "return":
-        b.subset_exits.append(f"{fn.key}: expected a single returning path")
+    rets = [p_ for p_ in paths if p_.outcome == "return"]
+    if not rets or len(rets) != len(paths):
+        b.subset_exits.append(f"{fn.key}: {len(paths) - len(rets)} non-returning path(s)")
         return
-    strains, stresses = paths[0].value
-    idx = getattr(ex, "loop_indices", [])
-    names = {str(i): i for i in idx}
-    ri, ci, li, ti = names.get("ri_idx"), names.get("ci_idx"), names.get("li_idx"), names.get("ti_idx")
-    ok_loops = None not in (ri, ci, li, ti)
-    ground(b, f"{fn.key}::loops", fn.key, "four nested loops over (radius, colatitude, longitude, time)", ok_loops, detail=str(idx))
-    if not ok_loops:
+    for pi_, path_ in enumerate(rets):
+        sfx = f"@path{pi_}" if len(rets) > 1 else ""
+        eps, mu_, lam_ = _strain_stress_path(b, fn, ex, path_, sfx, args, pre, y, U, Ut, Up, Utt, Upp, mu, lam, l)
+    if eps is None:
         return
-    point = lambda k: (sp.Integer(k), ri, li, ci, ti)
-    # frame: all writes at the generic point, exactly components 0..5 of both outputs
-    for arr, nm in ((strains, "strains"), (stresses, "stresses")):
-        widx = [w[0] for w in arr.writes]
-        ok = sorted(widx, key=str) == sorted([point(k) for k in range(6)], key=str)
-        ground(b, f"{fn.key}::frame:{nm}", fn.key, f"frame: {nm} is written exactly at [0..5, ri, li, ci, ti] of the generic iteration (no other element)", ok, detail=str(widx)[:300])
-    ok_reads = True
-    det = []
-    for an, arr in args.items():
-        if isinstance(arr, CArr):
-            for rd in arr.reads:
-                want = {"pot": (li, ci, ti), "y": None, "lon": (li,), "col": (ci,), "time": (ti,), "rad": (ri,), "mu": (ri,), "K": (ri,)}[arr.name]
-                if arr.name == "y":
-                    good = len(rd) == 2 and rd[1] == ri
-                else:
-                    good = tuple(rd) == want
-                if not good:
-                    ok_reads = False
-                    det.append((an, str(rd)))
-    ground(b, f"{fn.key}::frame:reads", fn.key, "frame: every input is read only at the generic index of its own axes (element-wise, no stencil)", ok_reads, detail=str(det)[:300])
-    eps = [strains.get(point(k)) for k in range(6)]
-    sig = [stresses.get(point(k)) for k in range(6)]
-    hyps = pre + ex.facts
-    tr = eps[0] + eps[1] + eps[2]
-    for k in range(6):
-        spec = Cx(2) * mu * eps[k] + (lam * tr if k < 3 else Cx(0))
-        b.add(Obligation(oid=f"{fn.key}::ensures:hooke[{k}]", fn=fn.key, clause=f"sigma_{k} == 2 mu eps_{k}" + (" + lambda tr(eps), lambda = K - 2 mu/3" if k < 3 else ""),
-                         goal=sp.And(sp.Eq(sig[k].re, spec.re), sp.Eq(sig[k].im, spec.im)), hyps=hyps, backends=("qqnf", "z3")))
-    # tractions, with the degree-l Laplace identity as hypothesis:  U_tt = -l(l+1) U - cot U_t - U_pp / sin^2
-    ll = l * (l + 1)
-    lap_re = (Utt.re, 1, (-ll * U.re - cT / sT * Ut.re - Upp.re / sT ** 2))
-    lap_im = (Utt.im, 1, (-ll * U.im - cT / sT * Ut.im - Upp.im / sT ** 2))
-    rels = [lap_re, lap_im, (sT, 2, 1 - cT ** 2)]
-    for k, (spec, nm) in {0: (y[1] * U, "sigma_rr == y2 U"), 3: (y[3] * Ut, "sigma_rtheta == y4 dU/dtheta"), 4: (y[3] * Up / Cx(sT), "sigma_rphi == y4 dU/dphi / sin(theta)")}.items():
-        b.add(Obligation(oid=f"{fn.key}::ensures:traction[{k}]", fn=fn.key, clause=nm + " (degree-l Laplace identity assumed for the potential)",
-                         goal=sp.And(sp.Eq(sig[k].re, spec.re), sp.Eq(sig[k].im, spec.im)), hyps=hyps, rels=rels, backends=("qqnf",)))
+
     b.samples.append(dict(strain_rr=str(eps[0])[:200]))
     b._hooke = (eps, mu, lam)
 
@@ -130,7 +142,8 @@ def heating(b):
     sig = [cxsym(f"sigma{k}") for k in range(6)]
     eps = [cxsym(f"eps{k}") for k in range(6)]
     npx = Namespace("np", {"real": _sh_real, "imag": _sh_imag, "abs": _sh_abs})
-    fn, ex, paths = run_fn(b, FH, "calculate_volumetric_heating", dict(stress=sig, strain=eps), [], globals_env=dict(np=npx), xcheck=False)
+    from tpv.symex import NdArr
+    fn, ex, paths = run_fn(b, FH, "calculate_volumetric_heating", dict(stress=NdArr(sig), strain=NdArr(eps)), [], globals_env=dict(np=npx), xcheck=False)
     if not paths:
         return
     ensure(b, fn, "nonnegative", paths, lambda p: sp.Ge(p.value, 0), clause="ensures volumetric heating >= 0 (and real: it is built from real and imaginary parts only)")
@@ -141,7 +154,7 @@ def heating(b):
     mu, lam = R("mu_real"), R("lambda_real")
     tr = eps[0] + eps[1] + eps[2]
     sig_el = [Cx(2 * mu) * eps[k] + (Cx(lam) * tr if k < 3 else Cx(0)) for k in range(6)]
-    fn2, ex2, p2 = run_fn(b, FH, "calculate_volumetric_heating", dict(stress=sig_el, strain=eps), [], globals_env=dict(np=npx), xcheck=False)
+    fn2, ex2, p2 = run_fn(b, FH, "calculate_volumetric_heating", dict(stress=NdArr(sig_el), strain=NdArr(eps)), [], globals_env=dict(np=npx), xcheck=False)
     if p2:
         ensure(b, fn, "zero_when_elastic", p2, lambda p: sp.Eq(p.value, 0), clause="ensures heating == 0 when stress obeys Hooke's law with real (elastic) moduli")
     # passive viscoelastic: the signed sum equals 2 Im(mu) sum w |eps|^2 + Im(lambda) |tr eps|^2
@@ -184,3 +197,60 @@ def displacements(b):
             b.add(Obligation(oid=f"{fr.key}::ensures:{k}", fn=fr.key, clause={"radial_displacement": "u_r == y1 U", "polar_displacement": "u_theta == y3 dU/dtheta",
                                                                                 "azimuthal_displacement": "u_phi == y3 dU/dphi / sin(theta)"}[k],
                              goal=sp.And(sp.Eq(Cx.of(v).re, spec.re), sp.Eq(Cx.of(v).im, spec.im)), hyps=[sp.Gt(sT, 0)] + p.hyps))
+
+
+_C15_NATIVE = r'''
+import numpy as np
+from TidalPy.tides.multilayer.stress_strain import calculate_strain_stress
+from TidalPy.tides.heating import calculate_volumetric_heating
+fails = []
+lon = np.asarray([0.3, 1.1, 2.5]); col = np.asarray([0.4, 1.0, 2.2]); tm = np.asarray([0.0, 10.0])
+LON, COL, TM = np.meshgrid(lon, col, tm, indexing="ij")
+s, c = np.sin(COL), np.cos(COL)
+def harmonic(l):
+    ph = np.exp(2j * LON) * np.exp(1j * 1e-3 * TM)
+    if l == 2:
+        U, Ut, Utt = 3 * s**2 * ph, 6 * s * c * ph, 6 * (c**2 - s**2) * ph
+    else:
+        U, Ut, Utt = 15 * c * s**2 * ph, 15 * (2 * s * c**2 - s**3) * ph, 15 * (2 * c**3 - 7 * s**2 * c) * ph
+    return U, Ut, 2j * U, Utt, -4 * U, 2j * Ut
+rng = np.random.default_rng(1)
+nr = 4
+radius = np.linspace(2.0e5, 8.0e5, nr)
+for l in (2, 3):
+    U, Ut, Up, Utt, Upp, Utp = harmonic(l)
+    y = rng.normal(size=(6, nr)) + 1j * rng.normal(size=(6, nr))
+    for label, mu in (("rock", np.full(nr, 5.0e10 + 2.0e9j)), ("soft maxwell", np.asarray([5.0e10 + 2e9j, 1.0e-14 + 3.0e3j, 4.0e-16 + 40.0j, 5.0e10 + 1e8j]))):
+        K = np.full(nr, 1.2e11 + 0j)
+        strains, stresses = calculate_strain_stress(U, Ut, Up, Utt, Upp, Utp, y, lon, col, tm, radius, mu, K, 1e-3, order_l=l)
+        lam = K - 2 * mu / 3
+        tr = strains[0] + strains[1] + strains[2]
+        for k in range(6):
+            want = 2 * mu[:, None, None, None] * strains[k] + (lam[:, None, None, None] * tr if k < 3 else 0)
+            if not np.allclose(stresses[k], want, rtol=1e-9, atol=1e-12 * np.max(np.abs(want))): fails.append(["strain_stress", "l=%d %s: Hooke's law component %d" % (l, label, k)])
+        for k, want, nm in ((0, y[1][:, None, None, None] * U[None], "sigma_rr == y2 U"), (3, y[3][:, None, None, None] * Ut[None], "sigma_rtheta == y4 U_theta"),
+                            (4, y[3][:, None, None, None] * Up[None] / s[None], "sigma_rphi == y4 U_phi / sin")):
+            if not np.allclose(stresses[k], want, rtol=1e-8, atol=1e-10 * np.max(np.abs(want))): fails.append(["strain_stress", "l=%d %s: %s" % (l, label, nm)])
+        before = stresses.copy()
+        h1 = calculate_volumetric_heating(stresses, strains)
+        if not np.array_equal(before, stresses): fails.append(["heating", "l=%d %s: calculate_volumetric_heating modified its stress argument" % (l, label)])
+        h2 = calculate_volumetric_heating(stresses, strains)
+        if not np.allclose(h1, h2, rtol=1e-12): fails.append(["heating", "l=%d %s: heating not reproducible on a second call" % (l, label)])
+        if np.any(h1 < 0) or np.iscomplexobj(h1): fails.append(["heating", "negative or complex heating"])
+result = dict(failures=fails[:8], n=len(fails))
+'''
+
+
+def _replay_c15(ob, res):
+    from tpv import native
+    out = native.run(dict(code=_C15_NATIVE), timeout=900)
+    rec = dict(replayed=True, native=out)
+    if "result" not in out:
+        rec["confirmed"] = True
+        rec["detail"] = "the real functions raised on the sample inputs"
+        return rec
+    fam = "heating" if "heating.py" in ob.fn else "strain_stress"
+    hits = [f for f in out["result"]["failures"] if f[0] == fam]
+    rec["confirmed"] = bool(hits)
+    rec["detail"] = hits[:3]
+    return rec
